@@ -106,6 +106,23 @@ def known_entry(c):
     return If(In(p, d), d[p][3], Child(attr(c.old.this_ie, "file_id"), c.old.inv_f))
 
 
+# (D) which named directories start a walk: in SORTED order (a parent sorts before its descendants), each one unless the one before it
+#     already covers it - so a directory named together with one of its descendants is walked whatever the order they were given in
+UD = MapS(STR, Tup(STR, Opt(IE)))
+Covers = ufunc("Covers", STR, STR, BOOL)           # osutils.is_inside_or_parent_of_any([a], b)
+assumed("is_inside", pure=True, no_raise=True, returns=lambda c: Covers(c.args[0][0], c.args[1]))
+target("breezy/bzr/inventorytree.py::_SmartAddHelper._gather_dirs_to_add", params=dict(user_dirs=UD), generator=Tup(STR, STR, Opt(IE), ANY),
+       locals=dict(prev_dir=Opt(STR)),
+       loops={1: loop(r"for path in sorted\(user_dirs\)", index="i", prefix="seen", inv=lambda c: And(
+           c.user_dirs == c.old.user_dirs,
+           If(c.i == 0, And(c.prev_dir.is_none, Len(c.g.yielded) == 0),
+              And(Not(c.prev_dir.is_none), c.prev_dir.val == c.seen[c.i - 1], Len(c.g.yielded) >= 1, c.g.yielded[0][0] == c.seen[0]))))},
+       ensures={"named_directories_always_start_at_least_one_walk": lambda c: Implies(Len(c.g.yielded) == 0, c.prev_dir.is_none)},
+       raises={}, canary=lambda c: Len(c.g.yielded) == 0,
+       equivalent_mutants={r"not is_inside|prev_dir is None or|prev_dir = path": "WHICH later directories are skipped as covered is decided natively "
+                           "(replay/C11.py: a directory named with a descendant, in every order)"},
+       note="the walk roots are taken in sorted order, parents first")
+
 undecided("the worklist closure of the walk ('every unversioned descendant of a named directory is visited'): the loop appends to the list "
           "it iterates; only the per-item decisions are under contract")
 undecided("_add_one_and_parent (parents are versioned first), conflicts_related (built from the tree's conflicts), the ignore rules themselves "
